@@ -131,6 +131,16 @@ class SetTemp(SimAlgo):
         return True
 
 
+class PermGate(SimAlgo):
+    """a user algo that keeps its state where the library tells users to keep it: in target.perm (never cleared between runs).
+    It lets the stack through for the first `limit` invocations of that strategy instance only."""
+
+    def __call__(self, target):
+        n = target.perm.get("gate_calls", 0) + 1
+        target.perm["gate_calls"] = n
+        return n <= self.spec["limit"]
+
+
 class Wrap(SimAlgo):
     """oracle wrapper: snapshots inputs, calls the wrapped stock algo, hands both to a monitor"""
 
@@ -170,6 +180,8 @@ def build(bt, spec, sim):
         return Chaos(sim, spec)
     if a == "SetTemp":
         return SetTemp(sim, spec)
+    if a == "PermGate":
+        return PermGate(sim, spec)
     if a == "Probe":
         return Probe(sim, spec, build(bt, spec["inner"], sim))
     if a == "Wrap":
